@@ -238,7 +238,7 @@ def shard(sh: Shard, seed, wseed, regime, nhist, nev):
 
 def main(tier, seed):
     run = Run("C07", tier, seed, "exploration")
-    nh, nev = (5, 40) if tier == "quick" else (40, 80)
+    nh, nev = (12, 50) if tier == "quick" else (300, 90)
     regs = ["B", "J", "H", "T"]
     jobs = [{"seed": seed, "wseed": i, "regime": regs[i % 4], "nhist": nh, "nev": nev} for i in range(NCPU)]
     run.absorb(run_shards("checks.c07", "shard", jobs, timeout=3000))
